@@ -27,6 +27,18 @@ CHECKS = {
             "Trusts TLC/SANY, CommunityModules overrides, BigNat. Real scale is exhaustive only over the boundary families.",
             "TLA+ postconditions checked by TLC on recorded digit arrays + exhaustive toy model of the recoding algorithms",
             "5/C17"),
+    "C04": ("model_checking",
+            "Trace validation at real scale: an in-package recorder builds field elements from raw limbs (every corner pair "
+            "of the admissible limb box for sub/mul, canonicalisation boundaries, one-past-nominal limbs, carry extremes of the "
+            "small-constant multiplication, operation chains, seeded random limbs in the whole headroom) and runs every "
+            "internal/field operation on the amd64-assembly, portable 64-bit and 32-bit backends; TLC evaluates the F_p "
+            "specification on each event and the canonical encoding of each output. The oracle's own sqrt_ratio_i/inversion "
+            "algorithms are model-checked against their declarative definitions on a complete toy field. Exhaustive over the "
+            "corner families, sampled inside the box (the monotonicity argument of DESIGN.md 5/C04 explains why corners decide overflow).",
+            "Trusts TLC/SANY, CommunityModules overrides, BigNat/F25519, go test -overlay. AVX2 vector lanes are exercised through "
+            "the group-level traces of C03/C06, not limb by limb.",
+            "TLA+ spec of F_p; TLC trace validation of limb-level recorded executions on three backends",
+            "5/C04"),
 }
 
 NOT_YET = "check not built yet in this round (planned, see DESIGN.md section 11); not claimed until its machinery exists"
